@@ -12,14 +12,14 @@ Definition key_of_dkey (d : dkey) : option key :=
   | DErr => Some KErr
   | DNoDefer => Some KNone
   | DShadowedErr => Some KAlways
-  | DNA => None
+  | DRollbackFirst | DNA => None
   end.
 
 (* one output file, written through one staging helper *)
 Definition single_output (r : frow) : bool :=
   match f_helper r with
   | HStaged | HPdfStaged | HCut | HNewFile => true
-  | HMulti | HReadOnly | HInPlace => false
+  | HMulti | HMultiRollback | HReadOnly | HInPlace => false
   end.
 
 Definition name_in (l : list (string * string)) (r : frow) : bool :=
@@ -30,7 +30,8 @@ Definition name_in (l : list (string * string)) (r : frow) : bool :=
    the only panic source inside the body is the caller's io.Reader; CopyFile copies from an *os.File.
    Every other single-output function must be keyed on a completion flag. *)
 Definition panic_unsafe : list (string * string) :=
-  [ ("pdfcpu", "WriteReader"); ("pdfcpu", "CopyFile"); ("pdfcpu", "Write") ].
+  [ ("pdfcpu", "WriteReader"); ("pdfcpu", "CopyFile"); ("pdfcpu", "Write");
+    ("api", "writeMultiFillOutputWith") ].
 (* no function is unsafe when the body just returns an error *)
 Definition error_unsafe : list (string * string) := [].
 
@@ -65,6 +66,31 @@ Proof.
   - left. reflexivity.
   - right. split; [discriminate|exact Hf].
   - right. split; [discriminate|exact Hf].
+Qed.
+
+(* the form multi-fill transactions: both register their rollback before the record loop, and the record
+   writer they share is an error- and fault-safe stagedOutput user (not deferred: KNone) *)
+Definition is_tx (r : frow) : bool := helper_eqb (f_helper r) HMultiRollback.
+Lemma multi_fill_rows_proof :
+  (forall r, In r table -> is_tx r = true -> f_key r = DRollbackFirst) /\
+  existsb (fun r => String.eqb (f_name r) "multiFillFormJSONWith" && is_tx r) table = true /\
+  existsb (fun r => String.eqb (f_name r) "multiFillFormCSVWith" && is_tx r) table = true /\
+  (forall r, In r table -> f_name r = "writeMultiFillOutputWith" ->
+     exists k, key_of_dkey (f_key r) = Some k /\ k <> KAlways /\ forall fin, fin <> CPanic -> safe_for k fin).
+Proof.
+  split; [|split; [vm_compute; reflexivity|split; [vm_compute; reflexivity|]]].
+  - assert (Hall : forallb (fun r => implb (is_tx r) (dkey_eqb (f_key r) DRollbackFirst)) table = true) by (vm_compute; reflexivity).
+    intros r Hin Htx. rewrite forallb_forall in Hall. specialize (Hall r Hin). rewrite Htx in Hall. cbn in Hall.
+    apply dkey_eqb_eq. exact Hall.
+  - assert (Hall : forallb (fun r => implb (String.eqb (f_name r) "writeMultiFillOutputWith")
+                                        (dkey_eqb (f_key r) DFlag || dkey_eqb (f_key r) DErr || dkey_eqb (f_key r) DNoDefer)) table = true)
+      by (vm_compute; reflexivity).
+    intros r Hin Hname. rewrite forallb_forall in Hall. specialize (Hall r Hin). rewrite Hname in Hall. cbn in Hall.
+    apply orb_true_iff in Hall. destruct Hall as [Hall|Hall]; [apply orb_true_iff in Hall; destruct Hall as [Hall|Hall]|];
+      apply dkey_eqb_eq in Hall; rewrite Hall; eexists; (split; [reflexivity|]); (split; [discriminate|]); intros fin Hf.
+    + left. reflexivity.
+    + right. split; [discriminate|exact Hf].
+    + right. split; [discriminate|exact Hf].
 Qed.
 
 (* the table is not empty and contains the anchored functions *)
